@@ -25,6 +25,10 @@ def make_base(seed):
         # a reference time inside the run: particles released before it have negative time offsets in the files
         sc["reference_s"] = scen.sim2time(sc, sc["nsteps"] // 2) + 7
         sc["reference"] = lab.tstr(sc["reference_s"])
+    if seed % 4 == 1:
+        # forcing frames between two model times (dt does not divide the frame times): a frame belongs to the step
+        # that holds it, before and after a restart alike
+        sc["frame_off"] = scen.DT // 2
     if sc["continuous"]:
         # a file entry that is not a whole number of release periods after the first one: an uninterrupted run
         # never reaches it (ticks are counted from the first file time); a restarted run must not either
@@ -34,6 +38,20 @@ def make_base(seed):
         extra = dict(sc["rows"][0], step=int(2 * r.randint(0, max(1, sc["nsteps"] // 2)) + 1), mult=2)
         sc["rows"] = sorted(sc["rows"] + [extra], key=lambda x: x["step"])
     return sc
+
+
+def corpus_recorded_then_dead():
+    """The highest pid is recorded in an early record of the restart file and dead in its last one; no particle
+    variables in the file; a later release must not get that pid again."""
+    out = []
+    for seed, numrec in ((14, 3), (15, 4)):
+        sc = scen.gen(seed, rev=False, layout="sparse", numrec=numrec, period=1, nsteps=9, kills=False, continuous=False, speed=0.25, land=False,
+                      pvars=False, subgrid="none", late_release=False)
+        r0 = sc["rows"][0]
+        sc["rows"] = [dict(r0, step=0, mult=1), dict(r0, step=1, mult=2), dict(r0, step=numrec + 1, mult=1), dict(r0, step=numrec + 3, mult=2)]
+        sc["kill"] = {"1": [1, 2]}
+        out.append(sc)
+    return out
 
 
 def abs_times(f):
@@ -129,6 +147,7 @@ def run(ctx: Ctx):
     c12["rows"] = [dict(r0, step=0, mult=1), dict(r0, step=1, mult=1), dict(r0, step=3, mult=1)]
     c12["kill"] = {"1": [1]}
     cases.append(c12)
+    cases += corpus_recorded_then_dead()
     res = pmap(run_base_and_restarts, cases)
     reqs, rmeta = [], []
     for sc, g in zip(cases, res):
